@@ -618,6 +618,10 @@ func connectExtractTimeout(headers http.Header, meta *requestMeta) error {
 	if str == "" {
 		return nil
 	}
+	if str[0] < '0' || str[0] > '9' {
+		// strconv accepts a leading sign; the protocol only allows digits
+		return fmt.Errorf("invalid timeout %q", str)
+	}
 	timeoutInt, err := strconv.ParseInt(str, 10, 64)
 	if err != nil {
 		return err
